@@ -428,7 +428,7 @@ impl<O: PlainOracle> PlainSys<O> {
         let mut v = Vec::new();
         'outer: for it in 0..reps {
             for &(c, val) in cycle {
-                let r = self.do_cc_depth(&cur, c, val, true, 1);
+                let r = xs::report::with_details(|| self.do_cc_depth(&cur, c, val, true, 1));
                 if !r.violations.is_empty() {
                     for mut x in r.violations {
                         x.signature = format!("{}/pumped", x.signature);
